@@ -587,6 +587,21 @@ where
             }
         }
     }
+    // a second real serializer: serde_json::value::Serializer (its collect_str goes through
+    // to_string) and the Value deserializer (owned strings)
+    match guarded(|| serde_json::to_value(x)) {
+        Err(p) => viols.push(viol("G0-serde-panic", format!("to_value panicked: {}", p), Some(&s))),
+        Ok(Err(e)) => viols.push(viol("G0-serde-ser-fails", format!("to_value: {}", e), Some(&s))),
+        Ok(Ok(v)) => {
+            if v != serde_json::Value::String(s.clone()) {
+                viols.push(viol(
+                    "G0-json-not-printed-string",
+                    format!("to_value gives {} but printed form {:?}", v, s),
+                    Some(&s),
+                ));
+            }
+        }
+    }
     G0 {
         printed: Some(s),
         ok: viols.len() == before,
